@@ -239,6 +239,10 @@ def run(model: RepoModel, rep, tier: str):
                           "descends into the copy it is making and recurses until ENAMETOOLONG")
     from .c14 import check_path_prefix_tests
     check_path_prefix_tests(model, rep, "C18.R4")
+    from ..generic3 import check_path_string_ops
+    rep.rule("C18.R6", "output paths derived from an input's path are derived with os.path (splitext / join): cutting a path at its first dot or at the "
+                       "first occurrence of the extension text yields a path outside the workspace when a directory name contains a dot", 3)
+    check_path_string_ops(model, rep, "C18.R6", ["preparation.py", "lang/lang_analysis.py", "main.py", "util/util.py"])
     key = f"{PREP}::WorkspaceBuilder.copytree_with_extension::symlinked sources skipped"
     from ..model import effective_body
     _eb = effective_body(ct.node)
